@@ -114,11 +114,16 @@ def run(ctx):
         proof["problems"].append("translator could not translate: %s" % tf)
     leaf_bits(ctx)
     b = [("multi-page", big_volume) for _ in range(4 if ctx.tier == "quick" else 60)]
-    b += c01.builders(ctx)[: (20 if ctx.tier == "quick" else 300)]
+    b += c01.builders(ctx)[: (80 if ctx.tier == "quick" else 1200)]
+    # directories whose cache spans several blocks, emptied in several orders (cache blocks are released one by one)
+    from . import c05, c07
+    b += [("dircache-directory-cycle", c05.cache_dir_cycle) for _ in range(10 if ctx.tier == "quick" else 150)]
+    b += [("dircache-empty-a-block", c07.block_sweep) for _ in range(4 if ctx.tier == "quick" else 40)]
+    b += [("dircache-stress", c07.cache_history) for _ in range(8 if ctx.tier == "quick" else 150)]
     b += [("namespace", c02.ns_history) for _ in range(8 if ctx.tier == "quick" else 200)]
     b += [("rdb-partition", c03.part_history) for _ in range(4 if ctx.tier == "quick" else 80)]
     rule = ("bit-index calls on volumes with 1..3 bitmap pages at page/word boundaries; histories (multi-page hardfiles crossing the 4064-block page boundary, "
-            "file and namespace histories, RDB partition with non-zero first block) judged at every dump by the extracted decoder: each reachable block reached once, "
+            "file and namespace histories, DIRCACHE directories grown over several cache blocks and emptied, RDB partition with non-zero first block) judged at every dump by the extracted decoder: each reachable block reached once, "
             "in range, marked allocated in the ON-DISK bitmap (dumps are taken with and without remount); distinct = distinct call / script")
     return histcheck.explore(ctx, proof, {"C04"}, b, rule, ["quiescent = no handle open for writing", "hardfiles with an even block count (see C14)"])
 
